@@ -749,8 +749,27 @@ func (ex *Exec) appendOp(fr *frame, fn *ssa.Builtin, args []V, pos token.Pos) V 
 	if sizeof(et) == 1 && !isNumCellBuf(src.B) {
 		cw := src.B.cellW
 		so, ok := ex.constInt(src.Off)
-		if !ok || int(so)%cw != 0 || int(sn)%cw != 0 || int(dn)%cw != 0 || (dst.B != nil && dn > 0 && (isNumCellBuf(dst.B) || dst.B.cellW != cw)) {
+		if !ok || int(so)%cw != 0 || int(sn)%cw != 0 || int(dn)%cw != 0 || (dst.B != nil && dn > 0 && !isNumCellBuf(dst.B) && dst.B.cellW != cw) {
 			panic(abortPath{"append of object-cell bytes that are not whole cells"})
+		}
+		if dst.B != nil && dn+sn <= dc {
+			// room in the destination's backing array: append in place
+			do, ok := ex.constInt(dst.Off)
+			if !ok || int(do)%cw != 0 {
+				panic(abortPath{"append of object-cell bytes: unaligned destination"})
+			}
+			if isNumCellBuf(dst.B) {
+				ex.bytesToObjectsLike(dst.B, src.B)
+			}
+			if dst.B.cellW != cw {
+				panic(abortPath{"append of object-cell bytes: cell width mismatch"})
+			}
+			tmp := make([]V, int(sn)/cw)
+			for i := range tmp {
+				tmp[i] = ex.copyV(src.B.cells[int(so)/cw+i])
+			}
+			copy(dst.B.cells[(int(do)+int(dn))/cw:], tmp)
+			return Slice{B: dst.B, Off: dst.Off, Len: ex.c64(dn + sn), Cap: dst.Cap}
 		}
 		ex.bufID++
 		nb := &Buf{id: ex.bufID, cellW: cw, what: src.B.what}
